@@ -2,7 +2,7 @@
 import sys, importlib
 def main():
     ok = True
-    for m in ('chk', 'nm', 'symx', 'cexpr', 'absm', 'llsym', 'refre', 'refsem', 'pyif'):
+    for m in ('chk', 'nm', 'symx', 'cexpr', 'absm', 'llsym', 'refre', 'refsem', 'pyif', 'dfz', 'selfval'):
         try:
             mod = importlib.import_module('engines.' + m)
         except ModuleNotFoundError as e:
